@@ -102,7 +102,7 @@ theorem options_roundtrip {t : Tree} (hr : Representable env t = true) {s : Str}
   obtain ⟨ts', hser, rfl⟩ := serializeString_ok_representable env pr hfrag [] hs
   obtain ⟨ts, hl, her⟩ := lexDocument_render_erase ts' (options_lexOK env pr hr hser)
   obtain ⟨p0, hb, ht, he⟩ := options_build env pr hr hser (strLen (renderTokens ts'))
-  obtain ⟨p, hp, h1, h2, _⟩ := build_erase_ok .document _ (strLen (renderTokens ts')) env ts' ts her.symm p0 hb
+  obtain ⟨p, hp, h1, h2, _⟩ := build_erase_ok .document _ (strLen (renderTokens ts')) env ts' ts her.1.symm her.2 p0 hb
   refine ⟨p, ?_, by rw [h1, ht], by rw [h2, he]⟩
   simp only [parseString, lexMode, hl]
   exact hp
@@ -114,7 +114,7 @@ theorem options_roundtrip_fragment {t : Tree} (hr : RepresentableFragment env t 
   obtain ⟨ts', hser, rfl⟩ := serializeString_ok_representable env pr hr [] hs
   obtain ⟨ts, hl, her⟩ := lexFragment_render_erase ts' (options_lexOK_fragment env pr hr hser)
   obtain ⟨p0, hb, ht, he⟩ := options_build_fragment env pr hr hser (strLen (renderTokens ts'))
-  obtain ⟨p, hp, h1, h2, _⟩ := build_erase_ok .fragment _ (strLen (renderTokens ts')) env ts' ts her.symm p0 hb
+  obtain ⟨p, hp, h1, h2, _⟩ := build_erase_ok .fragment _ (strLen (renderTokens ts')) env ts' ts her.1.symm her.2 p0 hb
   refine ⟨p, ?_, by rw [h1, ht], by rw [h2, he]⟩
   simp only [parseString, lexMode, hl]
   exact hp
